@@ -410,7 +410,9 @@ def run_cli(ctx, batch, case):
             return
         _, _, inrecs = sim.read_vcf(paths["vcf"])
         try:
-            _, samples, recs = sim.read_vcf(out)
+            samples, recs, n_nul = G.read_vcf_tolerant(out)
+            if n_nul:
+                ctx.observe("output VCF contains NUL bytes (--tag HP with every sample's HP missing in a record; C04/C09 finding)")
         except Exception as e:      # the output of a successful run must be a readable VCF
             ctx.fail(f"output VCF of whatshap phase cannot be parsed: {type(e).__name__}: {e}", case, key="output-vcf-unreadable")
             return
@@ -570,7 +572,8 @@ def run(ctx):
     G.assert_overlay_in_use(ctx.overlay)
     modes = ["trio-noreads", "trio-sparse", "trio-deep", "trio-deep", "quartet-noreads", "quartet-sparse", "quartet-deep",
              "quartet-deep", "trio-sparse", "quartet-sparse", "trio-noreads-nogenetic", "trio-deep-nogenetic",
-             "quartet-sparse-nogenetic", "trio-deep", "quartet-deep", "trio-sparse"]
+             "quartet-sparse-nogenetic", "trio-deep", "quartet-deep", "trio-sparse", "quartet-noreads", "trio-noreads",
+             "quartet-deep-nogenetic", "quartet-sparse"]
     if not ctx.quick:
         modes = modes * 10
     for m in modes * ctx.scale:
